@@ -36,3 +36,7 @@ def run(rep):
     seen = rt_common.impl_side(rep, PID, runs, lambda a, d: probe.oracle_fault(d, hang_libs))
     if seen and known_async:
         rep.known_finding("async-channel-buffered-reply: %d in-flight value-returning calls on async_std / smol block forever after the actor died (e.g. %s); proved refuted in Coq: C20_no_hang_refuted_without_drain" % (len(seen), seen[0]))
+
+
+def replay(rep, path):
+    return rt_common.replay_generic(rep, path)
